@@ -123,6 +123,9 @@ type Exec struct {
 
 	// outcome
 	Panics    []string
+	// EnginePanic: an assertion of the run time itself failed in this execution (message starts with "vrt:").
+	// Never a verdict about the code under test: the execution is run again (RunOnce / RunControlled).
+	EnginePanic string
 	Deadlock  string
 	StepLimit bool
 	Leaked    []string // blocked background threads at the end (site: wait reason)
@@ -213,7 +216,17 @@ func (x *Exec) threadExit(t *thread) {
 	t.pending = nil
 	if r != nil {
 		if _, ok := r.(abortSentinel); !ok {
-			x.Panics = append(x.Panics, fmt.Sprintf("panic in thread %d (%s): %v\n%s", t.id, t.site, r, trimStack()))
+			if msg := fmt.Sprint(r); strings.HasPrefix(msg, "vrt:") {
+				if x.EnginePanic == "" {
+					x.EnginePanic = fmt.Sprintf("%s in thread %d (%s)\n%s", msg, t.id, t.site, trimStack())
+				}
+				if !x.aborting {
+					x.finish()
+					return
+				}
+			} else {
+				x.Panics = append(x.Panics, fmt.Sprintf("panic in thread %d (%s): %v\n%s", t.id, t.site, r, trimStack()))
+			}
 		}
 	}
 	if x.aborting {
